@@ -92,6 +92,20 @@ def forwarding(ctx, res, modules, prefix):
     return n
 
 
+def expect(res, key, v, specs, what, **kw):
+    """C13 specs name the decisive conditions of each effect; conditions that follow from them (`pos != ADJ` next to
+    `pos == ADJ_SAT`, the truthiness of a set that is iterated, the `seen` shortcut of taxonomy_depth) may be spelled or
+    ordered differently, so the stated guards are required to be among the effect's guards (subset form)."""
+    from ..speccheck import expect as _expect
+    specs2 = []
+    for sp in specs:
+        sp = tuple(sp)
+        while len(sp) < 4:
+            sp = sp + ((),)
+        specs2.append(sp[:4] + ('sub',))
+    return _expect(res, key, v, specs2, what, **kw)
+
+
 def r2_forwarding(ctx, res):
     n = forwarding(ctx, res, ('taxonomy', '_core'), 'forward')
     if n < 10:
@@ -99,7 +113,7 @@ def r2_forwarding(ctx, res):
 
 
 def r3_as_merge(ctx, res):
-    from ..speccheck import view, expect
+    from ..speccheck import view
     v = view(ctx, 'taxonomy', '_synsets_for_pos')
     expect(res, 'a-s-merge', v, [
         ('new', '#1'),
@@ -150,7 +164,7 @@ _SHP = '_shortest_hyp_paths(synset, other, simulate_root)'
 def r5_anchors(ctx, res):
     """definitions of the taxonomy functions, stated on their effect summaries (locals inlined, loop variables positional,
     comprehensions and explicit loops identified)"""
-    from ..speccheck import view, expect
+    from ..speccheck import view
     T = lambda name: view(ctx, 'taxonomy', name)   # noqa: E731
     for name, rel in (('roots', 'hypernyms'), ('leaves', 'hyponyms')):
         expect(res, f'anchor:{name}', T(name), [
